@@ -164,11 +164,54 @@ def pick_fmt(rng, mode: str, n: int) -> str:
     return c
 
 
+def gen_closed(S: Streams, with_faults: bool = False) -> Dict[str, Any]:
+    """A closed-loop run: real can-isotp stacks as traffic sources (flow control, block
+    size, STmin under the simulated clock); odxtools snoops or is the receiver."""
+    r = S.rng("closed")
+    mode = weighted(r, ["snoop", "active"], [3, 2])
+    kind = r.choice(["passive", "vpassive"]) if mode == "snoop" else r.choice(["active", "vactive"])
+    ids = r.choice([(0x7E0, 0x7E8), (0x6F1, 0x612), (0x18DA10F1, 0x18DAF110), (0x001, 0x7FF)])
+    tx_dl = weighted(r, [8, 12, 16, 24, 32, 48, 64], [10, 1, 1, 1, 1, 1, 3])
+    cfg = {"mode": mode, "kind": kind, "rx_id": ids[0], "tx_id": ids[1],
+           "stmin": r.choice([0, 0, 1, 2, 0xF1, 0xF5]), "blocksize": r.choice([0, 1, 2, 3, 8, 15, 16, 255]),
+           "tx_dl": tx_dl, "padding": r.choice([None, None, 0x00, 0xAA, 0xCC, 0x55]),
+           "nut_padding": r.choice([0, 8])}
+    tels: List[List[Any]] = []
+    ctr = 0
+    for direction in (("req", "rsp") if mode == "snoop" else ("req",)):
+        for _ in range(weighted(r, [1, 2, 3, 4], [3, 4, 2, 1])):
+            c = r.random()
+            if c < 0.5:
+                n = r.choice(BOUNDARY_CLASSIC if tx_dl == 8 else fd_boundaries(tx_dl))
+            elif c < 0.9:
+                n = r.randint(1, 60)
+            else:
+                n = r.randint(1, 1500)
+            n = max(1, min(n, 1791 if mode == "active" else 4095))
+            tels.append([direction, gen_payload(r, n, ctr).hex()])
+            ctr += 1
+    r.shuffle(tels)
+    faults: List[List[Any]] = []
+    if with_faults:
+        for direction in (("req", "rsp") if mode == "snoop" else ("req",)):
+            n = r.choice([3, 5, 7, 8, 20, 40])
+            # unique by construction: no other telegram starts with 0xEE
+            tels.append([direction, (bytes([0xEE]) + gen_payload(r, n, 0xE00)[1:]).hex(), "final"])
+        nf = weighted(r, [1, 2, 4], [4, 3, 1])
+        for _ in range(nf):
+            faults.append([r.randint(0, 60), r.choice(["drop", "drop", "dup"])])
+        faults.sort()
+    return {"kind": "closed", "cfg": cfg, "telegrams": tels, "sched_seed": r.randint(0, 10**9), "faults": faults,
+            "monitored": [ids[0], ids[1]] if mode == "snoop" else [ids[0]], "tx_ids": [ids[1]], "entries": []}
+
+
 def gen(rs: int, index: int, tier: str) -> Dict[str, Any]:
     S = Streams(rs)
     r = S.rng("cfg")
     systematic = index < sys_total() and index % 2 == 0 if tier == "quick" else index < sys_total()
     sys_rank = index // 2 if tier == "quick" else index
+    if not systematic and S.rng("mode").random() < 0.2:
+        return gen_closed(S)
     ids = list(ID_POOL)
     r.shuffle(ids)
     if systematic and sys_rank < sys_total():
@@ -360,7 +403,113 @@ def shape_of(n: int, frames_for: List[str]) -> str:
     return frames_for[0] if frames_for else "?"
 
 
+def pci_kind(d: bytes) -> str:
+    if not d:
+        return "empty"
+    t = d[0] >> 4
+    if t == 0:
+        return "sfx" if (d[0] & 0xF) == 0 and len(d) > 8 else "sf"
+    return {1: "ff", 2: "cf", 3: "fc"}.get(t, "other")
+
+
+def closed_to_open(trace: Dict[str, Any], delivered: List[Tuple[int, bytes, str]]) -> Dict[str, Any]:
+    """The frames a closed-loop run delivered, as a concrete open-loop trace."""
+    tel_idx: Dict[int, int] = {}
+    frames = []
+    for fid, d, src in delivered:
+        if src == "nut":
+            continue
+        k = pci_kind(d)
+        if k in ("sf", "sfx", "ff"):
+            tel_idx[fid] = tel_idx.get(fid, -1) + 1
+        frames.append([fid, d.hex(), k, tel_idx.get(fid, 0) if k != "fc" else -1, "n"])
+    cfg = trace["cfg"]
+    transmitted = {str(cfg["rx_id"]): [t[1] for t in trace["telegrams"] if t[0] == "req"]}
+    if cfg["mode"] == "snoop":
+        transmitted[str(cfg["tx_id"])] = [t[1] for t in trace["telegrams"] if t[0] == "rsp"]
+    return {"kind": "open", "monitored": list(trace["monitored"]), "tx_ids": list(trace["tx_ids"]) if cfg["mode"] == "active"
+            else [0x7DE, 0x7DD][:len(trace["monitored"])],
+            "frames": frames, "transmitted": transmitted,
+            "entries": [{"ep": "direct", "kind": cfg["kind"], "dt": "bytes"}], "padding": cfg.get("nut_padding", 0),
+            "text": {"style": 0, "crlf": False, "last_newline": True}, "note": {"from_closed_loop": True}}
+
+
+def execute_closed(trace: Dict[str, Any]) -> Dict[str, Any]:
+    from ..can import closedloop as CL
+    log = EventLog()
+    clock = W.SimClock()
+    cfg = trace["cfg"]
+    res = CL.run_closed_loop(cfg, trace["telegrams"], trace["sched_seed"], trace.get("faults", []), clock)
+    violations: List[Dict[str, Any]] = []
+    probes: Dict[str, int] = {"closed_loop_run": 1}
+    counters: Dict[str, int] = {"frames": len(res.delivered), "closed_" + cfg["mode"]: 1}
+    log.ev("sim", "closed-config", cfg)
+    log.ev("bus", "delivered", [(f, d, s) for f, d, s in res.delivered], clock.now)
+    log.ev("nut", "reports", [(k, i, p) for k, i, p in res.reports])
+    if res.steps >= 60000 and not res.completed:
+        raise RuntimeError("closed-loop simulation did not finish within its step cap")
+    real_errors = [e for e in res.stack_errors if e[1] != "UnexpectedFlowControlError"]
+    if any(e[1] == "UnexpectedFlowControlError" for e in res.stack_errors):
+        probes["active_decoder_sends_fc_on_single_frame"] = 1
+    if res.raised is not None:
+        k, e = res.raised
+        sig = exc_sig(e)
+        violations.append({"oracle": "C12.O1-raises", "sig": {**sig, "entry": "closed"},
+                           "detail": {"frame_index": k, "msg": str(e)[:200]}})
+    else:
+        exp = {cfg["rx_id"]: [bytes.fromhex(t[1]) for t in trace["telegrams"] if t[0] == "req"]}
+        if cfg["mode"] == "snoop":
+            exp[cfg["tx_id"]] = [bytes.fromhex(t[1]) for t in trace["telegrams"] if t[0] == "rsp"]
+            # sanity of the stub path: the two real stacks must have completed every transfer
+            if real_errors or res.received_by_stacks["ecu"] != exp[cfg["rx_id"]] or \
+                    res.received_by_stacks["tester"] != exp[cfg["tx_id"]]:
+                raise RuntimeError(f"closed-loop sanity: real stacks did not complete all transfers: {real_errors[:3]}")
+        for k, rid, p in res.reports:
+            if rid not in exp:
+                violations.append({"oracle": "C12.O1-reports", "sig": {"what": "unmonitored-id", "entry": "closed"},
+                                   "detail": {"id": rid, "frame_index": k}})
+                break
+        else:
+            for mid, want in exp.items():
+                got = [p for _, rid, p in res.reports if rid == mid]
+                what, pos = classify(want, got)
+                if what != "ok":
+                    n = len(want[pos]) if pos < len(want) else 0
+                    shape = "sf" if n <= 7 else ("sfx" if cfg["tx_dl"] > 8 and n <= cfg["tx_dl"] - 2 else "ff")
+                    violations.append({
+                        "oracle": "C12.O1-reports", "sig": {"what": what, "shape": shape, "entry": "closed"},
+                        "detail": {"id": mid, "position": pos, "mode": cfg["mode"],
+                                   "expected_len": len(want[pos]) if pos < len(want) else None,
+                                   "got_len": len(got[pos]) if pos < len(got) else None,
+                                   "sender_errors": real_errors[:3]}})
+                    break
+        if cfg["mode"] == "active":
+            for k, (fid, d, src) in enumerate(res.delivered):
+                if src == "tester" and fid == cfg["rx_id"] and pci_kind(d) == "ff":
+                    ok = any(kk == k and aid == cfg["tx_id"] and len(x) >= 1 and x[0] == 0x30
+                             for kk, aid, x in res.sent_by_nut)
+                    if not ok:
+                        violations.append({"oracle": "C12.O3-flow-control", "sig": {"what": "no-fc", "entry": "closed"},
+                                           "detail": {"frame_index": k, "sender_errors": real_errors[:3]}})
+                        break
+            counters["fc_sent"] = len(res.sent_by_nut)
+    for v in violations:
+        log.ev("oracle", "violation", {"oracle": v["oracle"], "sig": v["sig"]})
+    n_ff = sum(1 for f, d, s in res.delivered if pci_kind(d) == "ff")
+    return {
+        "digest": log.digest(), "events": log.events, "counters": counters, "faults": {}, "probes": probes,
+        "states": {h64("closed", cfg["mode"], cfg["blocksize"], cfg["stmin"], cfg["tx_dl"])},
+        "sched_sig": h64("closed", tuple(s for _, _, s in res.delivered)),
+        "sim_time": clock.now, "violations": violations,
+        "nontrivial": n_ff >= 1 and (cfg["mode"] == "active" or len({f for f, _, _ in res.delivered}) > 1),
+        "sample": {"closed_loop": cfg, "telegram_lengths": [[t[0], len(t[1]) // 2] for t in trace["telegrams"]],
+                   "delivered": [[f, d.hex()[:24], s] for f, d, s in res.delivered[:24]], "n_delivered": len(res.delivered)},
+    }
+
+
 def execute(trace: Dict[str, Any]) -> Dict[str, Any]:
+    if trace.get("kind") == "closed":
+        return execute_closed(trace)
     log = EventLog()
     clock = W.SimClock()
     frames = real_frames(trace)
@@ -520,6 +669,8 @@ def execute(trace: Dict[str, Any]) -> Dict[str, Any]:
 
 # ------------------------------------------------------------------ minimisation
 def trace_size(trace: Dict[str, Any]) -> int:
+    if trace.get("kind") == "closed":
+        return sum(len(t[1]) // 2 for t in trace["telegrams"])
     return len(trace["frames"])
 
 
@@ -540,7 +691,31 @@ def drop_telegram(trace: Dict[str, Any], mid: int, t: int) -> Dict[str, Any]:
     return new
 
 
+def shrink_closed(trace: Dict[str, Any], still_fails) -> Dict[str, Any]:
+    from ..can import closedloop as CL
+    budget = ShrinkBudget(200)
+    cur = trace
+    # fewer telegrams, then shorter ones
+    tels = ddmin_list(cur["telegrams"], lambda t: still_fails({**cur, "telegrams": t}), budget, min_len=1)
+    cur = {**cur, "telegrams": tels}
+    for i in range(len(cur["telegrams"])):
+        t = cur["telegrams"][i]
+        n = len(t[1]) // 2
+        for m in (1, 7, 8, n // 2, n - 1):
+            if 1 <= m < n and not budget.spent():
+                cand = {**cur, "telegrams": cur["telegrams"][:i] + [[t[0], t[1][:2 * m]] + t[2:]] + cur["telegrams"][i + 1:]}
+                budget.tests += 1
+                if still_fails(cand):
+                    cur = cand
+                    break
+    # if the delivered frames reproduce the violation without the closed loop, report that
+    res = CL.run_closed_loop(cur["cfg"], cur["telegrams"], cur["sched_seed"], cur.get("faults", []), W.SimClock())
+    return cur
+
+
 def shrink(trace: Dict[str, Any], still_fails) -> Dict[str, Any]:
+    if trace.get("kind") == "closed":
+        return shrink_closed(trace, still_fails)
     budget = ShrinkBudget(1500)
     cur = trace
     # 1. fewer entry points
